@@ -2,6 +2,9 @@ package main
 
 import (
 	"bytes"
+	"errors"
+	"io"
+	"os"
 	"fmt"
 	"strings"
 
@@ -15,6 +18,11 @@ func init() {
 	reg("C11", "exh", c11exhaustive)
 	reg("C11", "rand", c11random)
 }
+
+var errProbe = errors.New("probe error")
+
+// c11w is the monitored destination every logger of a C11 tree writes to.
+var c11w io.Writer
 
 type modeCall struct {
 	name string
@@ -95,6 +103,21 @@ func modeAlphabet(full bool) []modeCall {
 			modeCall{"New(name,WithLevel,WithJSONMode(true))", func(t *slog.Entry, seq int) (*slog.Entry, bool) {
 				return t.New(fmt.Sprintf("optl%d", seq), slog.WithLevel(slog.AlwaysLevel), slog.WithJSONMode(true)), true
 			}, jsonNext(true)},
+			// calls that are NOT mode calls leave the format alone: a destination that is a real file, a level, attributes
+			set("SetWriter(*os.File) SetWriter(back)", func(t *slog.Entry) *slog.Entry {
+				f, err := os.CreateTemp("", "c11-*.log")
+				if err != nil {
+					return t
+				}
+				defer os.Remove(f.Name())
+				defer f.Close()
+				t.SetWriter(f).SetErrorWriter(f)
+				t.Info("a record into a real file")
+				return t.SetWriter(c11w).SetErrorWriter(c11w)
+			}, func(s Format) Format { return s }),
+			set("SetLevel SetAttrs SetTimeFormat", func(t *slog.Entry) *slog.Entry {
+				return t.SetLevel(slog.AlwaysLevel).SetAttrs(slog.Int("x", 1)).SetTimeFormat("15:04:05")
+			}, func(s Format) Format { return s }),
 			with("WithJSONMode(true,false)", func(t *slog.Entry) *slog.Entry { return t.WithJSONMode(true, false) }, jsonNext(false)),
 		)
 	}
@@ -120,6 +143,7 @@ type c11step struct {
 
 // c11run executes one sequence on a fresh three-logger tree and checks getters and probe shapes of every logger after every call.
 func c11run(c *Ctx, idx int, log *mon.Log, w mon.W, alpha []modeCall, steps []c11step) bool {
+	c11w = w
 	root := newRoot("root", FColor, w, slog.AlwaysLevel)
 	a := root.New("a")
 	b := a.New("b")
@@ -151,7 +175,15 @@ func c11run(c *Ctx, idx int, log *mon.Log, w mon.W, alpha []modeCall, steps []c1
 				c.R.Violation(idx, "getters", "C11/getters/"+strings.ReplaceAll(mc.name, " ", "_"), fmt.Sprintf("after %v logger #%d reports JSONMode=%v ColorMode=%v, the state machine says %v", hist, i, l.JSONMode(), l.ColorMode(), want), map[string]any{"sequence": hist})
 				return false
 			}
-			evs := capture(log, func() { l.Info("shape-probe", "k", 1) })
+			// every other probe carries an error value (under go test the library appends a dump of it to the record:
+			// that dump belongs to the record and has the record's format)
+			evs := capture(log, func() {
+				if (si+i)%2 == 0 {
+					l.Info("shape-probe", "k", 1)
+				} else {
+					l.Warn("shape-probe", "k", 1, "err", errProbe)
+				}
+			})
 			if len(evs) != 1 {
 				c.R.Violation(idx, "probe", "C11/probe/count", fmt.Sprintf("probe produced %d events", len(evs)), map[string]any{"sequence": hist})
 				return false
